@@ -108,6 +108,12 @@ macro_rules! decomposed {
             cs.concat_self(&t2);
             ck.eqv("concat_self(p)", $pa(cs.transform_point(pp)), $pa(t1.transform_point(t2.transform_point(pp))));
             ck.eq("concat scale", c.scale, s1 * s2);
+            // a transform composed with itself, both arguments being the very same object
+            let sq = t1.concat(&t1);
+            ck.eqv("t.concat(&t)(p) = t(t(p))", $pa(sq.transform_point(pp)), $pa(t1.transform_point(t1.transform_point(pp))));
+            ck.eqv("t.concat(&t)(v) = t(t(v))", $va(sq.transform_vector(vv)), $va(t1.transform_vector(t1.transform_vector(vv))));
+            let sq = t1 * t1;
+            ck.eqv("(t*t)(p) = t(t(p))", $pa(sq.transform_point(pp)), $pa(t1.transform_point(t1.transform_point(pp))));
             // identity
             let one: D<S> = One::one();
             ck.eqv("one()(p) = p", $pa(one.transform_point(pp)), p);
@@ -180,14 +186,20 @@ fn g_mat4(rng: &mut Rng, tier: Tier) -> Case {
     let mut c = Case::new();
     // class 0 affine; 1 generic projective; 2 projective without translation
     // (translation column 0,0,0,w); 3 bottom row (0,0,0,k) with k != 1
-    c.class = match rng.below(6) {
+    c.class = match rng.below(8) {
         0..=2 => 0,
         3 => 1,
         4 => 2,
-        _ => 3,
+        5 => 3,
+        _ => 4,
     };
     for _ in 0..2 {
         let mut m = gen::distinct_rats(rng, tier, 16);
+        if c.class == 4 {
+            // what the crate's own constructors produce (identity, scale, translation, viewport,
+            // rotation with or without translation, projection-shaped, singular scale)
+            m = gen::structured_matrix(rng, tier, 4).0;
+        }
         match c.class {
             0 => {
                 m[3] = Rat::int(0);
@@ -282,15 +294,32 @@ fn mat4<S: Sc>(case: &Case, ck: &mut Ck<S>) {
 fn g_mat3(rng: &mut Rng, tier: Tier) -> Case {
     let mut c = Case::new();
     // two affine 3x3 (for the 2-D reading) and two arbitrary 3x3 (3-D reading)
+    // one case in four: structured matrices (scale, translation, viewport, rotation, ...)
+    let structured = rng.chance(1, 4);
     for _ in 0..2 {
         let mut m = gen::distinct_rats(rng, tier, 9);
         m[2] = Rat::int(0);
         m[5] = Rat::int(0);
         m[8] = Rat::int(1);
+        if structured {
+            // kinds 0-5, 7, 8 are affine (last row 0 0 1); kind 6 is not
+            loop {
+                let (mm, _) = gen::structured_matrix(rng, tier, 3);
+                // the 2-D reading is affine: last row exactly 0 0 1
+                if mm[2].is_zero() && mm[5].is_zero() && mm[8].n == mm[8].d {
+                    m = mm;
+                    break;
+                }
+            }
+        }
         c.push_r(&m);
     }
     for _ in 0..2 {
-        c.push_r(&gen::distinct_rats(rng, tier, 9));
+        if structured {
+            c.push_r(&gen::structured_matrix(rng, tier, 3).0);
+        } else {
+            c.push_r(&gen::distinct_rats(rng, tier, 9));
+        }
     }
     c.push_r(&gen::distinct_rats(rng, tier, 3));
     c.push_r(&gen::distinct_rats(rng, tier, 3));
@@ -547,7 +576,7 @@ pub fn clauses() -> Vec<Clause> {
         clause!("decomposed3_quaternion", EP_D, g_dec3, dec3_quat),
         clause!("decomposed3_basis3", EP_D, g_dec3, dec3_basis),
         clause!("decomposed2_basis2", EP_D, g_dec2, dec2_basis),
-        clause!("matrix4", EP_M, g_mat4, mat4, weight = 1.0, classes = 4),
+        clause!("matrix4", EP_M, g_mat4, mat4, weight = 1.0, classes = 5),
         clause!("matrix3", EP_M, g_mat3, mat3),
         clause!("singular", EP_M, g_sing, singular, weight = 0.25, classes = 0),
     ]
